@@ -2495,6 +2495,7 @@ func spawnStage(self string, b run.Batch, kind, gdir string, params map[string]s
 
 func mergeResult(r, gr *ev.Result) {
 	r.Eval(int(gr.Evaluations))
+	r.Distinct = append(r.Distinct, gr.Distinct...) // hashes of the stage's non-trivial cases (the parent de-duplicates)
 	for k, n := range gr.Counters {
 		if strings.HasPrefix(k, "max.") {
 			r.Max(k, n)
